@@ -357,6 +357,11 @@ class ScenarioGen:
             self.feat("light.active.%s" % active)
             tl = TrafficLight(tid, self.pos(), cyc, active=active, direction=self.cyc(dirs))
             net.add_traffic_light(tl, set(r.sample(lids, r.randint(1, min(2, len(lids))))))
+        if self.defaults:
+            # a traffic light constructed with its defaults only (no cycle): expressible in protobuf (the cycle elements
+            # are a repeated field), not in XML (the schema requires a cycle)
+            net.add_traffic_light(TrafficLight(self.nid(), self.pos()), {lids[0]})
+            self.feat("light.without-cycle")
         # stop lines refer to a subset of their lanelet's signs / lights
         for la in lls:
             if r.random() < 0.5 and not (self.defaults and la is lls[0]):
